@@ -58,7 +58,9 @@ def base_set(table, prof, R, off):
 
 def scalings(R):
     vals = (1.0, -1.0, 2.0, -2.0, 0.5) if R <= 3 else (1.0, -1.0)
-    return itertools.product(vals, repeat=R)
+    # plus: every column in a small / large unit (cosines do not depend on the unit; products of R small norms get tiny)
+    extra = [tuple([1e-3] * R), tuple([-1e-3 if j % 2 else 1e-3 for j in range(R)]), tuple([1e3] * R), tuple([1e-6] * R)]
+    return itertools.chain(itertools.product(vals, repeat=R), extra)
 
 
 def spread(s, pat, n):
